@@ -9,10 +9,10 @@ bool rc_defined(int rc);   // doceng.cpp
 
 enum VOp { V_CREATE, V_INIT, V_INIT_CHAR, V_COPY_CHAR, V_PARSE_NUMB, V_INIT_NUMB, V_AUTOINIT, V_SET_QUOTED, V_CLEAN, V_FREE, V_CLONE_NEW, V_CLONE_ONTO,
     V_L_COUNT, V_L_GET, V_L_SET, V_L_INSERT, V_L_REMOVE, V_T_SET, V_T_GET, V_T_REMOVE, V_T_KEYS, V_P_CREATE, V_P_NAMES, V_P_SET, V_P_GET, V_P_REMOVE, V_P_FREE,
-    V_GET_TEXT, V_GET_NUMBER, V_COUNT };
+    V_GET_TEXT, V_GET_NUMBER, V_MISC, V_COUNT };
 static const char *const VN[] = { "create", "init", "init_char", "copy_char", "parse_numb", "init_numb", "autoinit_numb", "set_quoted", "clean", "free", "clone_new", "clone_onto",
     "list_count", "list_get", "list_set", "list_insert", "list_remove", "table_set", "table_get", "table_remove", "table_keys", "packet_create", "packet_names", "packet_set", "packet_get", "packet_remove", "packet_free",
-    "get_text", "get_number" };
+    "get_text", "get_number", "misc" };
 struct VOpRec { VOp k; uint64_t seed; bool off = false, simple = false; };
 struct Root { cif_value_tp *v; MValue m; };
 struct PkItem { ustr orig, norm; MValue m; };
@@ -370,6 +370,31 @@ void VRun::exec(const VOpRec &o) {
             if (t.m->kind == CIF_NUMB_KIND) expect("cif_value_get_number", rc, {CIF_OK});
             else if (t.m->kind == CIF_CHAR_KIND) { bool ok = valid_number(t.m->text); expect("cif_value_get_number", rc, {ok ? CIF_OK : CIF_INVALID_NUMBER}); if (rc == CIF_OK) { MValue s2 = snapshot_value(t.v); if (s2.kind != CIF_NUMB_KIND || s2.text != t.m->text || s2.quoted != t.m->quoted) violate("structure", "coerce", "a numeric-looking string was not coerced to a number with the same text and quoting"); *t.m = s2; } }
             else expect("cif_value_get_number", rc, {CIF_ARGUMENT_ERROR});
+            return;
+        }
+        case V_MISC: {
+            // the two remaining allocating utility functions of the public API
+            if (r.chance(1, 2)) {
+                char *ver = NULL;
+                int rc = fe.call("cif_get_api_version", [&]() { if (ver) { lib_free(ver); ver = NULL; } return cif_get_api_version(&ver); });
+                cover(o.k, rc, 0); expect("cif_get_api_version", rc, {CIF_OK});
+                if (!ver || !*ver) violate("structure", "api_version", "cif_get_api_version returned no version string");
+                lib_free(ver);
+                if (r.chance(1, 4)) { int q = cif_get_api_version(NULL); if (q != CIF_ARGUMENT_ERROR) violate("rc", "api_version_null", strprintf("cif_get_api_version(NULL) -> %s", rc_name(q))); }
+            } else {
+                static const char *const CS[] = { "", "a", "_atom_site.label", "plain ASCII text with blanks", "1.234(5)e-7" };
+                const char *cs = CS[r.below(5)]; bool null_src = r.chance(1, 6); int32_t len = r.chance(1, 2) ? -1 : (int32_t) r.below(strlen(cs) + 1);
+                UChar *us = (UChar *) 1; bool touched = false;
+                int rc = fe.call("cif_cstr_to_ustr", [&]() { if (touched && us) lib_free(us); us = NULL; touched = true; return cif_cstr_to_ustr(null_src ? NULL : cs, len, &us); });
+                cover(o.k, rc, null_src ? 1 : 0); expect("cif_cstr_to_ustr", rc, {CIF_OK});
+                if (null_src) { if (us != NULL) violate("structure", "cstr_null", "cif_cstr_to_ustr(NULL) produced a string"); }
+                else {
+                    if (!us) violate("structure", "cstr_result", "cif_cstr_to_ustr returned CIF_OK without a string");
+                    size_t n = len < 0 ? strlen(cs) : (size_t) len; ustr want; for (size_t i = 0; i < n; ++i) want += (char16_t) (unsigned char) cs[i];
+                    if (from_uchar(us) != want) { lib_free(us); violate("structure", "cstr_text", "cif_cstr_to_ustr did not reproduce an ASCII string"); }
+                    lib_free(us);
+                }
+            }
             return;
         }
         default: return;
